@@ -293,6 +293,7 @@ type Feat struct {
 	SharedDef                                                              bool // several files define a definition literally named "Shared" (identical ref spelling, different targets)
 	PlainMarkers                                                           bool // no allOf/anyOf $ref branches (merged copies would carry markers too); every id is emitted
 	ReqCycle                                                               bool // a recursive $ref property may be required (schema no finite document satisfies)
+	SharedID                                                               bool // two different documents carry the same $id
 }
 
 func drawFeat(t *rapid.T) Feat {
@@ -446,6 +447,13 @@ func genWorld(t *rapid.T, maxFiles int, recCombo, http, shadows bool) *World {
 		}
 		if npkg > 1 {
 			f.Pkg = rapid.IntRange(0, npkg-1).Draw(t, "pkg")
+		}
+		if multiBias && i > 0 && f.ID != "" && rapid.IntRange(0, 9).Draw(t, "sameid") == 0 {
+			// two DIFFERENT documents that carry one $id (a v1/v2 pair that kept its id, a copied template): they share
+			// whatever is mapped to the id - package, output - and nothing else; each is still generated in full
+			f.ID, f.Pkg = w.Files[i-1].ID, w.Files[i-1].Pkg
+			feat.SharedID = true
+			w.Feat.SharedID = true
 		}
 		// names of marker-carrying object definitions are fixed before bodies so
 		// that other files can refer to them
@@ -791,6 +799,11 @@ func drawOptions(t *rapid.T, w *World, npkg int) Options {
 	if npkg > 1 && w.Feat.SamePkgBase {
 		o.Package = "example.com/m/main/v1"
 	}
+	v2pkg := npkg > 1 && !w.Feat.SamePkgBase && b("v2pkg", 30)
+	maxPkg := 0 // cross-package references go from lower to higher group numbers: the highest group is the one others share
+	for _, f := range w.Files {
+		maxPkg = max(maxPkg, f.Pkg)
+	}
 	if npkg > 1 {
 		// one package + output per group; group 0 keeps the defaults
 		for _, f := range w.Files {
@@ -800,12 +813,20 @@ func drawOptions(t *rapid.T, w *World, npkg int) Options {
 			pp := fmt.Sprintf("example.com/m/pk%d", f.Pkg)
 			if w.Feat.SamePkgBase {
 				pp += "/v1"
+			} else if v2pkg && f.Pkg == maxPkg {
+				// one mapped package whose path ends in a major-version element, like the mapstructure/v2 import
+				// of files with typed additionalProperties: its Go name is v2 there and mapstructure here, so
+				// nothing collides - unless import names are derived from the last path element (seeded change s86)
+				pp += "/v2"
 			}
 			if SelfNamedDefs && f.Pkg == 1 && w.Feat.OddKeys {
 				// (C12 worlds only) a package whose last element is not a Go identifier: go/format
 				// fails for that output, the tool warns and falls back to unformatted code; the
 				// bytes of every file must still not depend on the order the outputs are visited in
 				pp = "example.com/m/my-pk1"
+			}
+			if hasKey(o.SchemaPkg, f.ID) {
+				continue // a second document with the same id: one mapping
 			}
 			o.SchemaPkg = append(o.SchemaPkg, Pair{f.ID, pp})
 			o.SchemaOut = append(o.SchemaOut, Pair{f.ID, fmt.Sprintf("out/pk%d/gen.go", f.Pkg)})
@@ -824,11 +845,11 @@ func drawOptions(t *rapid.T, w *World, npkg int) Options {
 	}
 	if npkg > 1 {
 		for _, f := range w.Files {
-			if f.ID != "" && f.Pkg > 0 && b("rootnamepk", 15) {
+			if f.ID != "" && f.Pkg > 0 && !w.Feat.SharedID && b("rootnamepk", 15) {
 				o.SchemaRoot = append(o.SchemaRoot, Pair{f.ID, "Root" + strings.ToUpper(f.Tag)})
 			}
 		}
-	} else if len(w.Files) > 0 && w.Files[0].ID != "" && b("rootname", 15) {
+	} else if len(w.Files) > 0 && w.Files[0].ID != "" && !w.Feat.SharedID && b("rootname", 15) {
 		o.SchemaRoot = append(o.SchemaRoot, Pair{w.Files[0].ID, "Root" + strings.ToUpper(w.Files[0].Tag)})
 		// a mapping without --schema-output means "do not emit this schema" (pinned by
 		// the crossPackageNoOutput golden); usually give the id its output as well
@@ -860,6 +881,15 @@ func drawOptions(t *rapid.T, w *World, npkg int) Options {
 		}
 	}
 	return o
+}
+
+func hasKey(ps []Pair, k string) bool {
+	for _, p := range ps {
+		if p.K == k {
+			return true
+		}
+	}
+	return false
 }
 
 func (g *genCtx) pct(name string, p int) bool {
